@@ -88,7 +88,7 @@ def apply_flodym(op, x, y):
 
 def num_form(form, x, mx, n):
     """-> (flodym result, model expectation) of an operation between an array and a plain number"""
-    mn = full_like(mx, n)
+    mn = full_like(mx, n.item() if hasattr(n, "item") else n)  # the model computes with the plain Python number
     if form == "x+n":
         return x + n, expected("+", mx, mn)
     if form == "n+x":
@@ -188,6 +188,13 @@ def run_case(desc):
         bucket = f"binary-{ {'+':'add','-':'sub','*':'mul','/':'div','**':'pow','min':'min','max':'max'}[op] }"
     elif form in NUM_FORMS:
         n = desc["num"]
+        nt_ = desc.get("num_type")
+        if nt_:
+            # the plain number is a numpy scalar (what x.sum_values(), values.max() or np.sqrt(2) hand out)
+            import numpy as np
+
+            n = getattr(np, nt_)(n)
+            classes.append(f"number:{nt_}")
         classes.append(f"op:{form}")
         try:
             res, exp = num_form(form, x, mx, n)
@@ -329,6 +336,8 @@ def arith_cases(draw, mode, max_dims=3, max_len=2, forms=("binary", "binary", "b
             el = st.sampled_from(["1", "2", "-3", "1/2"]) if mode == "frac" else st.one_of(st.floats(1e-3, 1e3), st.floats(-1e3, -1e-3))
             desc["x"] = draw(gen.arrays(U, letters=x["letters"], modes=(mode,), tag="x", elems=el))
         desc.update(form=f, num=n)
+        if mode in ("float", "int") and f != "x**n":
+            desc["num_type"] = draw(st.sampled_from([None, None, "float64", "int64" if float(n) == int(n) else "float64", "float32" if float(n) in (0.0, 0.5, 1.0, 2.0, 2.5, -3.0, -4.0, 3.0) else "float64"]))
     else:
         forms_u = ["neg", "abs", "abs_method"] if mode == "sym" else UNARY
         desc.update(form=draw(st.sampled_from(forms_u)))
